@@ -258,7 +258,7 @@ def _column_normal_form(v):
     ALL = sp.Function("slice")(NONE, NONE, NONE)
 
     def is_a(e):
-        if getattr(getattr(e, "func", None), "__name__", "") != "_flatten_list" or len(e.args) != 1:
+        if getattr(getattr(e, "func", None), "__name__", "") not in ("_flatten_list", "concatenate", "hstack", "flat", "from_iterable") or len(e.args) != 1:
             return False
         c = e.args[0]
         if getattr(c, "func", None) != comp or len(c.args) != 2:
@@ -307,9 +307,29 @@ def _column_normal_form(v):
     def fix_c(e):
         st_ = strip_layout(strip_layout(e.args[0]).args[0])
         return COL(st_.args[0], e.args[1])
+    def fuse(x):
+        # [f(y) for y in [g(h) for h in S]] is [f(g(h)) for h in S]; with f the identity it is the inner list
+        if fnm(x) == "comp" and len(x.args) == 2 and fnm(x.args[1]) == "gen" and len(x.args[1].args) == 2:
+            var, src = x.args[1].args
+            if x.args[0] == var:
+                return src
+            if fnm(src) == "comp" and len(src.args) == 2 and fnm(src.args[1]) == "gen" and len(src.args[1].args) == 2 and var != src.args[1].args[0] \
+                    and not x.args[0].has(src.args[1].args[0]):
+                return comp(x.args[0].xreplace({var: src.args[0]}), src.args[1])
+        return x
+    for _ in range(3):
+        v2 = v.replace(lambda x: fnm(x) == "comp", fuse)
+        if v2 == v:
+            break
+        v = v2
     v = v.replace(is_a, fix_a)
     v = v.replace(is_b, fix_b)
     v = v.replace(is_c, fix_c)
+    for _ in range(3):
+        v2 = v.replace(lambda x: fnm(x) == "comp", fuse)
+        if v2 == v:
+            break
+        v = v2
     return v
 
 
